@@ -15,7 +15,9 @@ class CallGraph:
     def __init__(self, cr, over_approx=True):
         self.cr = cr
         self.over_approx = over_approx
-        self.edges = {}       # key -> set(keys)
+        self.edges = {}       # key -> set(keys) (all edges, CHA)
+        self.vedges = {}      # key -> set(impl keys reached only through dynamic dispatch on a LOCAL trait)
+        self.impl_self = {}   # impl method key -> self ADT path
         self.ext_calls = {}   # key -> list of (norm path, term) for non-local callees
         self.trait_impls = {}  # (trait path, method name) -> [impl fn keys]
         self.trait_defaults = {}
@@ -25,6 +27,7 @@ class CallGraph:
                 continue
             for name, key in imp["methods"]:
                 self.trait_impls.setdefault((tr, name), []).append(key)
+                self.impl_self[key] = cr.ty_adt(imp["self"])
         for tpath, t in cr.traits.items():
             for m in t["methods"]:
                 if len(m) > 2 and m[2]:
@@ -94,6 +97,7 @@ class CallGraph:
         cr = self.cr
         for key, f in cr.fns.items():
             outs = set()
+            vouts = set()
             ext = []
             bodies = [f] + f.get("promoted", [])
             for body in bodies:
@@ -119,6 +123,8 @@ class CallGraph:
                             impls = self.trait_impls.get((parts[0], parts[1]))
                             if impls:
                                 outs.update(i for i in impls if i in cr.fns)
+                                if parts[0] in cr.traits:
+                                    vouts.update(i for i in impls if i in cr.fns)
                                 d = self.trait_defaults.get((parts[0], parts[1]))
                                 if d in cr.fns:
                                     outs.add(d)
@@ -134,17 +140,68 @@ class CallGraph:
                         if impls and via in ("trait", "dyn"):
                             outs.update(i for i in impls if i in cr.fns)
             self.edges[key] = outs
+            self.vedges[key] = vouts
             self.ext_calls[key] = ext
 
-    def reachable(self, roots):
+    def _constructed(self, key):
+        """ADTs instantiated (aggregate / unit constant) in a function"""
+        c = self._cons_cache.get(key)
+        if c is not None:
+            return c
+        c = set()
+        f = self.cr.fns[key]
+        for body in [f] + f.get("promoted", []):
+            for b in body["blocks"]:
+                for s in b["s"]:
+                    rv = s.get("rv")
+                    if not rv:
+                        continue
+                    if rv.get("r") == "agg" and rv.get("ak") == "adt":
+                        c.add(rv["adt"])
+                    for o in ([rv.get("o")] if rv.get("o") else []) + list(rv.get("ops", [])):
+                        k = o.get("k") if isinstance(o, dict) else None
+                        if k and "zst" in k:
+                            p = self.cr.ty_adt(k["ty"])
+                            if p:
+                                c.add(p)
+                t = b["term"]
+                if t["t"] in ("call", "tailcall"):
+                    for o in t["args"]:
+                        k = o.get("k") if isinstance(o, dict) else None
+                        if k and "zst" in k:
+                            p = self.cr.ty_adt(k["ty"])
+                            if p:
+                                c.add(p)
+        self._cons_cache[key] = c
+        return c
+
+    def reachable(self, roots, rta=True):
+        """reachable functions; with rta, dynamic dispatch on a local trait only reaches impls whose Self type is
+        instantiated somewhere in the reachable code (rapid type analysis, iterated to a fixpoint)"""
+        if not hasattr(self, "_cons_cache"):
+            self._cons_cache = {}
         seen = set()
+        inst = set()
+        pending = {}      # self adt -> impl keys waiting for the type to be instantiated
         stack = [r for r in roots if r in self.cr.fns]
         while stack:
             k = stack.pop()
             if k in seen:
                 continue
             seen.add(k)
-            stack.extend(self.edges.get(k, ()))
+            if rta:
+                for adt in self._constructed(k):
+                    if adt not in inst:
+                        inst.add(adt)
+                        stack.extend(pending.pop(adt, ()))
+            v = self.vedges.get(k, ())
+            for w in self.edges.get(k, ()):
+                if rta and w in v:
+                    adt = self.impl_self.get(w)
+                    if adt is not None and adt not in inst:
+                        pending.setdefault(adt, set()).add(w)
+                        continue
+                stack.append(w)
         return seen
 
     def callers(self, key):
